@@ -14,10 +14,35 @@ OBLIGATIONS = [
     "c15_fec_single_owner", "c15_fec_put_once", "c15_fec_no_use_after_put",
     # goroutines and callbacks (logic; the runtime is not exhibited)
     "c15_postprocess_exits", "c15_update_stops", "c15_readloop_exits", "c15_readloop_needs_transport",
-    # the full exit statement is refuted for never-accepted sessions (F14)
-    "c15_backlog_leak_refuted",
+    # everything ends: accepted, backlog and being-created sessions (served side), dialled sessions
+    "c15_all_exit", "c15_client_all_exit",
 ]
-REFUTED = ("c15_backlog_leak_refuted",)
+
+META = {
+    "engine": "pool",
+    "technique": "ownership-instrumented model + invariant by induction (mini ownership logic); LTS of the exit "
+                 "logic with constructive exit paths; pool sanitizer, census and leak monitors on the real code",
+    "level_text": (
+        "Buffer half: machine-checked proof. An ownership-instrumented Gallina model of every pooled-buffer site of the ARQ "
+        "core (kcp.go) and of the FEC decoder with its caller is proved, by induction over ALL operation sequences and "
+        "configurations, to keep every live buffer in exactly one holder, to Put no acquisition twice and to read or write "
+        "none after its Put; Put provably ignores re-sliced views. The model is tied to the code on every run by replaying "
+        "generated histories (Get/Put counts and queue projection per operation) and by a poisoning sanitizer with an exact "
+        "census on raw cores, the raw decoder and real sessions. "
+        "Goroutine/callback half: PARTIAL for the runtime. The exit logic of postProcess, update, readLoop, monitor, "
+        "UDPSession.Close and Listener.Close (incl. closeBacklog and the two die tests of the dispatch) is a transition "
+        "system whose exit theorems hold for all interleavings and any channel capacity (c15_all_exit covers accepted, "
+        "backlog and being-created sessions); on the real code termination is only observed (goroutine sets after a grace "
+        "period, a pumped scheduler queue) over generated close orders and close points."),
+    "level_note": (
+        "Trusted: Coq 8.16.1 kernel (no axioms: every theorem is closed under the global context), the generated constant "
+        "c_mtuLimit, extraction (ExtrOcamlBasic) and the OCaml driver for the correspondence only, the Go harness and the "
+        "two verif hooks in bufferPool. Assumed, not exhibited: channel/timer/socket semantics of the Go runtime (closed "
+        "channel always ready, ReadFrom on a closed socket fails), real scheduling, the GC and sync.Pool. Session-level "
+        "holders (chPostProcessing, txqueue, the output callback's buffer) are covered by the sanitizer and census only. "
+        "readLoop/monitor exit needs the transport closed when the library does not own the socket (hypothesis; shown "
+        "necessary). Reads after Put are caught only when the bytes reach a delivered stream or the clear-text wire."),
+}
 BOTH = "^TestVerifC15(Buffers|Close)$"
 
 
@@ -42,7 +67,7 @@ def harness(ctx, env=None):
 
 
 def run(ctx):
-    ctx.prove("pool", "C15.v", OBLIGATIONS, refuted=REFUTED)
+    ctx.prove("pool", "C15.v", OBLIGATIONS)
     rep, rep2 = harness(ctx)
     summ = V.driver_compare(ctx, "pool", ["pool_model"], "pool_driver", "C15.log",
                             "kcp.go / fec.go buffer life cycle vs coq/pool/Pool.v (per operation: return code, pool Gets and "
@@ -67,7 +92,8 @@ def run(ctx):
         "that acquired no buffer (duplicate/out of window) AND a successful Recv; non-trivial session scenario = both streams "
         "complete.  Close: close orders over {client, accepted, listener, transport} x close points {idle, mid-transfer, full "
         "queues, during FEC recovery} x {socket owned, not owned}, plus never-accepted sessions and a peer arriving after "
-        "Listener.Close; non-trivial = closed while traffic was in flight.")
+        "Listener.Close (the F14 histories; monitor key close-leak:unaccepted-backlog-sessions); non-trivial = closed "
+        "while traffic was in flight.")
     ctx.assumptions += [
         "goroutine/callback termination is PARTIAL for the runtime: the theorems are about the LTS of coq/pool/Exit.v (atomic "
         "sections of postProcess / update / readLoop / monitor / Close under all interleavings, any channel capacity); real "
